@@ -9,9 +9,26 @@ from . import cast, pyspec
 KDIR = os.path.join(cast.REPO, "src", "cpu-kernels")
 
 
+# files whose kernels call helper templates that do not carry the `awkward_` prefix: the AST filter is widened so
+# that the helpers (and, as before, every awkward_* function of the file) are extracted in ONE clang run
+FILTERS = {"awkward_quick_sort.cpp": "quick_sort", "awkward_quick_argsort.cpp": "quick_argsort"}
+# helpers extracted by a second run and indexed by name only (never by AST id)
+HELPERS = {"awkward_quick_sort.cpp": ["binary_op"], "awkward_quick_argsort.cpp": ["binary_op"]}
+
+
 def _extract(path):
     try:
-        return cast.extract_file(path)
+        base = os.path.basename(path)
+        r = cast.extract_file(path, filt=FILTERS.get(base, "awkward_"))
+        for h in HELPERS.get(base, ()):
+            r2 = cast.extract_file(path, filt=h, tolerant=True)
+            for f in r2["functions"]:
+                if f["name"] == h:
+                    f = dict(f)
+                    f["id"] = None
+                    f["helper"] = True
+                    r["functions"].append(f)
+        return r
     except Exception as ex:   # never let one file kill the run
         return {"functions": [], "errors": "extract crashed: %r" % (ex,), "file": os.path.relpath(path, cast.REPO)}
 
